@@ -84,6 +84,8 @@ class SerializedEventAttempt(BaseModel):
 class SerializedWaiter(BaseModel):
     """Serialized representation of a waiter created by wait_for_event."""
 
+    model_config = ConfigDict(arbitrary_types_allowed=True)
+
     # Unique waiter ID
     waiter_id: str
     # The original event that triggered the wait (serialized)
@@ -96,6 +98,13 @@ class SerializedWaiter(BaseModel):
     resolved_event: str | None = None
     # True once the waiter's timeout fired; the replayed step then raises TimeoutError
     timed_out: bool = Field(default=False)
+    # Attempt record of the invocation suspended in the wait (same meaning as the
+    # fields of SerializedEventAttempt); the replay of `event` continues with it.
+    attempts: int = 0
+    first_attempt_at: float | None = None
+    last_exception: SerializableOptionalException = None
+    last_failed_at: float | None = None
+    recovery_counts: dict[str, int] = Field(default_factory=dict)
 
     @model_validator(mode="before")
     @classmethod
